@@ -349,13 +349,20 @@ def backslash_branches(ctx, tree):
         # escapers only (functions that write `\..` forms); decoders such as unquote() read backslashes
         if not any(m.get("e") == "fmt" and (m.get("template") or "").startswith("\\") for m in A.walk(f["body"])):
             continue
+        branches = []
         for node in A.walk(f["body"]):
-            if node.get("e") != "if":
-                continue
-            c = A.strip(node["cond"])
-            if not (c.get("e") == "bin" and c["op"] == "==" and A.strip(c["l"]).get("e") == "path" and A.lit_str(A.strip(c["r"])) == "\\"):
-                continue
-            var = A.strip(c["l"])["p"]
+            if node.get("e") == "if":
+                c = A.strip(node["cond"])
+                if c.get("e") == "bin" and c["op"] == "==" and A.strip(c["l"]).get("e") == "path" and A.lit_str(A.strip(c["r"])) == "\\":
+                    branches.append((A.strip(c["l"])["p"], node["then"]))
+            elif node.get("e") == "match" and A.strip(node["on"]).get("e") == "path":
+                # the switch form: `match c { '\\' => .., .. }`
+                for arm in node["arms"]:
+                    pt = arm["pat"]
+                    if pt.get("p") == "lit" and pt["x"].get("t") == "char" and pt["x"].get("v") == "\\" and arm.get("guard") is None:
+                        branches.append((A.strip(node["on"])["p"], arm["body"]))
+        for var, then in branches:
+            node = {"then": then}
             n += 1
             key = f"{f['path']}|backslash branch"
 
